@@ -15,8 +15,9 @@ Correspondence
       (scipy's analytic floc=0 branch) and LogNormalNormFitDistribution, relative 1e-12.
 Oracle (C), every family, default and user start values, data and c*data:
       ll_fit_ge_ll_start, ll_fit_ge_ll_truth (tol = 1e-6 (1+|LL|)), parameters_finite_admissible,
-      scale_equivariant (shapes rtol 1e-3, scales 1e-4, or - where the likelihood is flat - both
-      estimates within tol of each other's likelihood on the same data); for Normal / LogNormal also
+      scale_equivariant (shapes rtol 1e-3, scales 1e-4; where the parameters differ by more: the two
+      estimates' log-likelihoods on the same data may differ by at most tol + the MEASURED optimiser error of
+      the two fits = what restarting the real fit from its own result still gains); for Normal / LogNormal also
       ll_fit_ge_ll_start with the start placed at the Lean model's (proven) arg-max.
 """
 import copy
@@ -202,6 +203,26 @@ def fit_once(name, start, x):
     return d
 
 
+def polish_gain(name, pars, data, max_restarts=30):
+    """
+    measured optimiser error of a fit: how much log-likelihood the SAME fit routine still gains when it is
+    restarted from its own result until nothing improves (>= 0; ~0 for a converged fit)
+    """
+    ll0 = best = loglik(make(name, pars), data)
+    cur = dict(pars)
+    for _ in range(max_restarts):
+        try:
+            d = fit_once(name, cur, data)
+        except Exception:  # noqa: BLE001
+            break
+        ll = loglik(d, data)
+        if not (math.isfinite(ll) and ll > best + 1e-12 * (1.0 + abs(best))):
+            break
+        best = ll
+        cur = {k: float(v) for k, v in d.parameters.items()}
+    return max(0.0, best - ll0) if math.isfinite(ll0) else 0.0
+
+
 def choose_c(med, rng):
     lo = max(DATA_SCALE[0] / med * 1.05, 0.2)
     hi = min(DATA_SCALE[1] / med / 1.05, 5.0)
@@ -310,20 +331,31 @@ def eval_case(case, argmax_start=None):
                 dev[p] = (abs(b - a) / max(abs(a), 1.0), RT_SCALE)
         out["equiv_dev"] = {p: e for p, (e, _) in dev.items()}
         if any(e > lim for e, lim in dev.values()):
-            # parameters differ by more than the tolerance: are both within tol of the same maximum?
+            # The parameters differ by more than the nominal tolerance.  By the scale law (Lean: ll_scale_law)
+            #   LL(x; fit(x)) - LL(x; fit(c*x) scaled back) = err(c*x) - err(x),
+            # err(.) = how far the optimiser stopped below the maximum on its own data.  "Within optimiser tolerance"
+            # is therefore checked against the MEASURED optimiser error of the two fits (restarting the real fit from
+            # its own result until the likelihood stops improving), not against a guessed constant.
             ll_a = out["ll"]["x"]["fit"] if "x" in out["ll"] else -math.inf
             ll_b = loglik(make(name, back), x)
             tol = tol_of(ll_a) if math.isfinite(ll_a) else 0.0
-            out["equiv_ll_gap"] = ll_a - ll_b
-            if not abs(ll_a - ll_b) <= tol:
+            gap = ll_a - ll_b
+            out["equiv_ll_gap"] = gap
+            unb = name == "Weibull" and min(fitted["x"]["beta"], fitted["cx"]["beta"]) < 1.0
+            err_x = err_cx = 0.0
+            if not abs(gap) <= tol and not unb and name not in CLOSED_FORM:
+                err_x = polish_gain(name, fitted["x"], x)
+                err_cx = polish_gain(name, fitted["cx"], c * x)
+                out["optimiser_error"] = {"x": err_x, "cx": err_cx}
+            if not abs(gap) <= tol + err_x + err_cx:
                 worst = ", ".join(f"{p}: {e:.3g} (limit {lim:g})" for p, (e, lim) in dev.items() if e > lim)
-                unb = name == "Weibull" and min(fitted["x"]["beta"], fitted["cx"]["beta"]) < 1.0
                 out["bad"].append(("scale_equivariant",
                                    f"c={c!r}: fit(x)={fitted['x']}, fit(c*x) scaled back={back}; relative deviation {worst}; "
-                                   f"log-likelihoods on x differ by {ll_a - ll_b:.4g} (> {tol:.3g})",
-                                   {"input_class": UNBOUNDED} if unb else {"ll_gap": gap_class(ll_a - ll_b)}))
+                                   f"log-likelihoods on x differ by {gap:.4g} (> {tol:.3g} + measured optimiser error "
+                                   f"{err_x:.3g} + {err_cx:.3g})",
+                                   {"input_class": UNBOUNDED} if unb else {"ll_gap": gap_class(gap)}))
             else:
-                out["equiv_tier"] = "likelihood"
+                out["equiv_tier"] = "likelihood" if abs(gap) <= tol else "measured-optimiser-error"
         else:
             out["equiv_tier"] = "parameters"
     return out
@@ -496,6 +528,9 @@ def register(ck, case, res):
         return
     if "equiv_tier" in res:
         ck.count("C_equivariance_tier=" + res["equiv_tier"])
+    if "optimiser_error" in res:
+        d = ck.extra.setdefault("max_measured_optimiser_error", {})
+        d[name] = max(d.get(name, 0.0), res["optimiser_error"]["x"], res["optimiser_error"]["cx"])
     for pred, detail, extra in res["bad"]:
         sig = {"entry": entry(name), "predicate": pred}
         if name not in CLOSED_FORM and name != "VonMises":
@@ -549,7 +584,12 @@ def correspond_closed_forms(ck, rng, reps, ns):
             x = x * mult
             case = {"part": "B", "family": name, "truth": truth, "n": n, "seed": seed, "mult": mult,
                     "data_head": x[:5].tolist()}
-            d = fit_once(name, None, x)
+            try:
+                d = fit_once(name, None, x)
+            except Exception as e:  # noqa: BLE001
+                ck.case(case, nontrivial=True, sample=False)
+                ck.fail({"entry": entry(name), "predicate": "fit_completes"}, case, f"{type(e).__name__}: {e}")
+                continue
             jobs.append(fit_lines(name, x))
             keep.append((case, name, d, x))
     answers = run_model(ck, jobs)
@@ -604,8 +644,9 @@ def main(ck):
     ck.assumptions = [
         "data scale = median |data|; samples whose median leaves [0.05, 20] are skipped (counted)",
         "user start values = generating values perturbed by up to ~40 % (locations moved into the support)",
-        "scale_equivariant accepts parameter agreement (1e-3 shapes / 1e-4 scales) or, where the likelihood is flat, "
-        "both estimates within 1e-6 (1+|LL|) of each other's likelihood on the same data",
+        "scale_equivariant accepts parameter agreement (1e-3 shapes / 1e-4 scales); otherwise the log-likelihood gap "
+        "between fit(x) and the rescaled fit(c*x) on x must be within 1e-6 (1+|LL|) + the measured optimiser error of the "
+        "two fits (gain of restarting the real fit from its own result): by ll_scale_law that gap IS err(c*x) - err(x)",
         "von Mises has its scale fixed at 1 (fscale=1): no scale equivariance is claimed or checked",
         "the Lean log-likelihoods are evaluated at Float with numpy/scipy values of log, exp, pow, gammaln, i0e, cos as TABLE leaves",
     ]
@@ -616,7 +657,7 @@ def main(ck):
         "finite and admissible parameters of the iterative fits": "observed",
     }
     run_corpus(ck)
-    n_draws = 24 if thorough else 8
+    n_draws = 60 if thorough else 8
     ns = [100, 1000, 5000] if thorough else [100, 1000]
     cases = list(gen_cases(rng, n_draws, ns))
     plain = [c for c in cases if c["start_kind"] != "argmax"]
